@@ -16,9 +16,9 @@ def showExceptRats : Except Err (List Rat) → String
   | .error e => showErr e
 
 /-- is the order produced by the model's `_topological_sort` valid for `cs`? (premise of C06's theorems) -/
-def orderOk (cs : Pairs) : Bool :=
+def orderOk (cs : Pairs) (n : Nat) : Bool :=
   match topoSort cs with
-  | some o => validOrder cs o
+  | some o => validOrder cs o && o.all (· < n)
   | none => true
 
 def handlers : List (String × Handler) := [
@@ -35,13 +35,13 @@ def handlers : List (String × Handler) := [
       let pre := Tfl.Linear.projectPre m md rd lo hi w
       let full := pre.map (Tfl.Linear.normalize ord)
       let nsq := match pre with | .ok p => showRat (Tfl.Linear.normSq p) | .error _ => "0"
-      let ok := orderOk (Tfl.Linear.swapPairs md) && orderOk (Tfl.Linear.swapPairs rd)
+      let ok := orderOk (Tfl.Linear.swapPairs md) w.length && orderOk (Tfl.Linear.swapPairs rd) w.length
       pure s!"{showExceptRats full} {nsq} {showBool ok}"
     | _ => none),
   ("cat.project", fun args => match args with
     | [lo, hi, cs, w] => do
       let lo ← parseOptRat lo; let hi ← parseOptRat hi; let cs ← parsePairs cs; let w ← parseRats w
-      pure s!"{showExceptRats (Tfl.Categorical.project lo hi cs w)} {showBool (orderOk cs)}"
+      pure s!"{showExceptRats (Tfl.Categorical.project lo hi cs w)} {showBool (orderOk cs w.length)}"
     | _ => none),
   ("cat.call", fun args => match args with
     | [k, d, x] => do
